@@ -14,6 +14,9 @@ CHECKS = {
     "C02": (A, "4.2", "offline sequence monitor in virtual time (exactly-once/in-order on a clean path, bounded recovery after a fault prefix)",
             "held on every executed scenario; liveness restated as bounded progress B = 30 virtual s; fault prefixes are seeded samples of up to 40 s",
             "B chosen from the code's timer chains; 'accepted' = frame whose transmission the reader started (the client's documented congestion drop is not acceptance)"),
+    "C03": (A, "4.3", "online shadow-authentication monitor (independent MD5) over adversarial multi-session histories against the real iodined; privileged effects identified at the process boundary and by unique packet ids, plus users[] snapshot diffs at every select()",
+            "held on every executed history: login accepts, I/S/O/N acknowledgements, raw-login replies, server tun writes, client-to-client forwards, settings changes and authenticated flags all preceded by a correct response to the slot's current challenge",
+            "histories are seeded samples; the oracle only demands 'login before effect' and never predicts replies; fragment-size probes and ping/data acknowledgements are not treated as privileged"),
     "C05": (A, "4.5", "ASan/UBSan inside the real iodined + watchdog + health probe under structure-aware hostile datagram generators",
             "no sanitizer report, exit or stall on any executed hostile input sequence (7 generator classes x 9 pre-attack session states x server options), and a session established before the attack still moved a frame each way afterwards",
             "a clean sanitizer run is not memory safety (intra-object / non-adjacent overflows invisible); only executed paths are judged; GCC-defined signed '<<' (shift-base) is not counted as UB"),
